@@ -80,6 +80,8 @@ class Report:
                 if line not in self.known_hits:
                     self.known_hits.append(line)
                 return False
+        if any(v["what"] == what for v in self.violations):
+            return True
         os.makedirs(REPLAYS, exist_ok=True)
         path = os.path.join(REPLAYS, "%s-%d.json" % (self.prop, len(self.violations)))
         replay_payload = dict(replay_payload)
